@@ -366,6 +366,28 @@ Proof.
   exists outs; repeat split; auto. now apply rows_structb_Forall2.
 Qed.
 
+Lemma tri_inc_struct_heads rows :
+  rows_okb rows = true -> forallb (cum_row_okb SD false) rows = true ->
+  exists outs, to_incremental SD (concat rows) = Ok (concat outs) /\ rows_structb rows outs = true
+               /\ Forall2 row_sim rows outs /\ Forall (head_inc true) outs.
+Proof.
+  intros HR HC.
+  pose proof (rows_asc_of _ _ (cum_row_okb_asc SD false) HC) as HA.
+  rewrite to_incremental_rows by (auto; apply is_incremental_concat_false; eapply cum_rows_not_inc; eauto).
+  destruct (mapM_Forall (row_to_incremental SD)
+              (fun r o => inc_row_structb r o = true /\ (row_sim r o /\ head_inc true o)) rows)
+    as [outs [E F]].
+  { pose proof (rows_okb_row_key _ HR) as HK. apply forallb_Forall in HC.
+    rewrite Forall_forall in *. intros r Hr.
+    destruct (row_inc_struct r (HC r Hr)) as [o [E S]]. exists o.
+    destruct (row_inc_shape SD r o (HK r Hr) E) as [S1 S2].
+    repeat split; auto; try apply S1. eapply head_inc_of; eauto. }
+  rewrite E. cbn [bind]. apply Forall2_and in F as [F1 F2]. apply Forall2_and in F2 as [F2 F3].
+  exists outs; repeat split; auto.
+  - now apply rows_structb_Forall2.
+  - exact (Forall2_right _ _ _ F3).
+Qed.
+
 Lemma tri_inc_cum rows :
   rows_okb rows = true -> forallb (cum_row_okb SD true) rows = true ->
   exists incs, to_incremental SD (concat rows) = Ok incs
